@@ -233,6 +233,9 @@ static void job(int j)
 				char *dot = strchr(domain, '.');
 				if (dot && strchr(dot + 1, '.')) { snprintf(srvdomain, sizeof srvdomain, "*%s", dot); if (s_check_topdomain(srvdomain, 1, &em)) snprintf(srvdomain, sizeof srvdomain, "%s", domain); }
 			}
+			/* domains are case-insensitive: the two ends need not spell theirs alike */
+			if (dl % 2) for (int i = 0; srvdomain[i]; i += 2) srvdomain[i] = toupper((unsigned char)srvdomain[i]);
+			if (dl % 3 == 0) for (int i = 1; domain[i]; i += 2) domain[i] = toupper((unsigned char)domain[i]);
 			for (int codec = 0; codec < 4; codec++) {
 				int cap = (L - dl) * (codec == 0 ? 5 : codec == 3 ? 7 : 6) / 8 + 3;
 				for (int hdr = 1; hdr <= 5; hdr += 4) {
